@@ -165,10 +165,16 @@ def run_history(hist):
       h.Measurement('t').with_dimensions('x'),
       h.Measurement('c').validate_on({L['R'].A: v.in_range(0, 4)}))(ph)
   pre = progs.make_phase('pre', {'ret': ['ok'], 'diag': ['A']}, progs.RunCtx())
+
+  def pre_attach_body(test):
+    test.attach('pre.bin', b'PRE')        # an earlier phase's attachment: never part of a later phase's live view
+
+  pre_attach_body.__name__ = 'preattach'
+  pre_attach = h.PhaseOptions(name='preattach')(pre_attach_body)
   out = io.BytesIO()
   # the record is written twice: first to a file named through a pattern, then to a file object
   pattern, pdir = pattern_path()
-  res, recs, test, terr = htf.run_test([pre, ph], callbacks=[json_factory.OutputToJSON(pattern, sort_keys=True),
+  res, recs, test, terr = htf.run_test([pre, pre_attach, ph], callbacks=[json_factory.OutputToJSON(pattern, sort_keys=True),
                                                               json_factory.OutputToJSON(out, sort_keys=True), snap_cb])
   rec = recs[0]
   bad.extend(check_final(rec, out.getvalue().decode()))
@@ -399,6 +405,19 @@ def _attach_work(item):
       for kind, what in bad:
         viols.append(('attachments:%s:%s' % (kind, '/'.join('-' if c is None else c.decode() for c in combo)),
                       'attachments %r named %r over records x,x,y: %s' % (combo, names, what), {'part': 'attachments'}))
+  if start == 0:
+    # sizes around 64 KiB (and a multiple of it): inlined attachments still decode byte for byte
+    for size in (65535, 65536, 65537, 131072, 200000):
+      n += 1
+      blob = bytes((i * 7 + size) % 251 for i in range(size))
+
+      def big(test):
+        test.attach('big.bin', blob)
+
+      out = io.BytesIO()
+      res, recs, test, terr = htf.run_test([h.PhaseOptions(name='big')(big)], callbacks=[json_factory.OutputToJSON(out), snap_cb])
+      for kind, what in check_final(recs[0], out.getvalue().decode()):
+        viols.append(('attachments:%s:size=%d' % (kind, size), 'one attachment of %d bytes: %s' % (size, what[:300]), {'part': 'attachments'}))
   return n, viols, len(outcomes), {'contents_per_record': [repr(c) for c in contents]}
 
 
